@@ -32,7 +32,8 @@ def check_events(case, dump):
         got[row] = (CLS.get(cname), tname, earn, amt)
     for row, e in want.items():
         if row not in got:
-            if e["cls"] == 2 and not hist.intra_fee_taxed(e):
+            if e["cls"] == 2 and hist.is_dust_fee(e):
+                # informational tag only (the shape of the repaired finding F8): no known: line matches it any more
                 bad.append(f"transfer row {row} with non-zero fee {e['amt']}e-11 is not a taxable event (fiat value of the fee rounds to 0 at 13 decimals)")
                 tags.add("dust-transfer-fee")
             else:
@@ -115,5 +116,7 @@ def run(tier, build, replay=None):
         "correspondence_mismatches": mism,
         "type_distribution": types_seen,
     })
-    out.assumptions = ["transfer fees below 5e-14 fiat are a known finding (F8), theorems carry no_dust_fee"]
+    out.assumptions = ["the oracle taxes a transfer iff its crypto fee is non-zero, whatever the fee is worth (histories with fees worth less than "
+                       "5e-14 are generated and must pass: finding F8 is repaired, replay corpus/C03/f8-dust-transfer-fee.json); a negative fee "
+                       "cannot be constructed (sent < received is rejected)"]
     return out.finish(proofs, build)
